@@ -32,7 +32,7 @@ From Astisub Require Import Kit.Base Kit.Str Kit.Float64 Kit.Float64x Kit.Xml Mo
   Proofs.TtmlLines Proofs.TtmlPara Proofs.TtmlRefs Proofs.TtmlDocSpec Proofs.TtmlDoc Kit.XmlParse Proofs.XmlParseProofs Proofs.TtmlBytes
   Proofs.TtmlRender Proofs.TtmlRenderTime Proofs.TtmlRenderDoc Proofs.TtmlReadRendered Proofs.TtmlRenderEx
   Kit.XmlParse2 Proofs.XmlParse2Proofs Proofs.TtmlRenderBytesSpec Proofs.TtmlRenderBytes
-  Kit.XmlEsc Model.TtmlGo Proofs.TtmlLegal Proofs.TtmlAudit.
+  Kit.XmlEsc Model.TtmlGo Proofs.TtmlLegal Proofs.TtmlAudit Proofs.Parse2Written.
 Import ListNotations.
 Open Scope Z_scope.
 
@@ -278,6 +278,13 @@ Example C03_examples :
   ttml_time (offset_expr [49;50]%N [53]%N Mf) 25 0 = Some 500000000 /\
   ttml_time (offset_expr [51]%N [] Mt) 0 3 = Some 1000000000.
 Proof. exact (conj ex_time_clock (conj ex_time_offset (conj ex_time_frames (proj1 ex_time_ticks)))). Qed.
+
+(* the extended parser also inverts the writer model's bytes (every document value, every white-space indent), so it
+   agrees with the first parser there *)
+Theorem C03_parse2_written : forall d ind b, indent_ok ind = true -> write_ttml_bytes ind d = Ok b ->
+  exists t, write_ttml d = Ok t /\ xml_parse2 b = Some (indent_doc ind t).
+Proof. exact parse2_written. Qed.
+Print Assumptions C03_parse2_written.
 
 (* ---------------- totality ---------------- *)
 Theorem C03_read_total : forall root s, read_ttml root <> Panic s.
